@@ -101,17 +101,14 @@ def generate(rng, tier, focus):
                 else:
                     q = ["op", cut[0], cut[1], p]
                 cases.append((scn(handles=1, script_=[sub(0, q)]), {"k": "unbounded-cut"}))
-    # ref_count / replay / publish over a SYNCHRONOUS cold source: a callback subscribes the same shared observable again (directly or
-    # through flat_map) while the first subscriber's subscribe is still connecting and running the source
+    # ref_count / replay / publish over a SYNCHRONOUS cold source: a callback subscribes the same shared observable again while the first subscriber's subscribe is still connecting and running the source
     for _ in range(30 if thorough else 8):
         for ck in ["refcount", "replay"]:
             s0 = scen.script([rng.choice([1, 2, 3]) for _ in range(rng.randrange(1, 4))], rng.choice(["c", "c", ("e", 5)]))
             i = rng.randrange(0, 3)
-            how = rng.choice(["react", "react", "flat_map"])
-            if how == "react":
-                acts = [sub(0, ["conn", 0], (i, ["sub", 1, ["conn", 0]]))]
-            else:
-                acts = [sub(0, ["op", "flat_map", [["mod"]], ["conn", 0], ["conn", 0], ["just", 5]])]
+            # (through a callback only: one subscriber registered TWICE at the same subject - flat_map back onto the shared
+            # observable - receives the two feeds in the subject's hash-map order, which no model can predict)
+            acts = [sub(0, ["conn", 0], (i, ["sub", 1, ["conn", 0]]))]
             cases.append((scn(srcs=[scen.src([s0, s0], False)], conns=[[ck, ["cold", 0]]], handles=2, script_=acts), {"k": "conn-cold-nested-" + ck}))
     # connectables over a hot source
     for _ in range(60 if thorough else 12):
